@@ -819,7 +819,7 @@ fn c29_env(stray_acl: bool) -> (Env, AuthIdentity, AuthIdentity) {
 pub fn c29(args: &Args) -> i32 {
     quiet_panics();
     let run = Run::new(args, "model_checking", 55.0, 900.0);
-    run.set_rule("programs of 1..3 lines naming the internal KG in every position (target-KG argument, .kg use/create/drop _internal, after comments / other statements / .kg use A, reads, writes, rule definitions, .rel commands), by an editor and a viewer identity (owner ACL on A; each case also with a stray ACL row naming _internal), with no session, with a session bound to A, and with session creation directly on _internal; after each request: _internal's facts/rules/schemas unchanged, no reply contains the stored credential string, no session bound to _internal, _internal still listed. non-trivial = all cases");
+    run.set_rule("programs of 1..3 lines naming the internal KG in every position (target-KG argument, .kg use/create/drop _internal, after comments / other statements / .kg use A, reads, writes, rule definitions, .rel commands), by an editor and a viewer identity (owner ACL on A; each case also with a stray ACL row naming _internal), with no session, with a session bound to A, with a session bound to A while the request names _internal as its target KG, and with session creation directly on _internal; after each request: _internal's facts/rules/schemas unchanged, no reply contains the stored credential string, no session bound to _internal, _internal still listed. non-trivial = all cases");
     let prefixes: Vec<&str> = vec!["", "// c", "?e(X)", ".kg use A", "+e(5)", "/* c */", "% c"];
     let enter: Vec<&str> = vec!["", ".kg use _internal", ".kg create _internal", ".kg drop _internal"];
     let payload: Vec<&str> = vec![
@@ -841,7 +841,7 @@ pub fn c29(args: &Args) -> i32 {
         ".why ?users(X, Y, Z)",
         ".clear prefix us",
     ];
-    let mut cases: Vec<(String, u8, u8, u8)> = vec![]; // (program, kg_arg: 0=A 1=_internal 2=None-with-session, identity, session mode)
+    let mut cases: Vec<(String, u8, u8, u8)> = vec![]; // (program, kg_arg: 0=A 1=_internal 2=None-with-session 3=_internal-with-session-on-A, identity, session mode)
     for pre in &prefixes {
         for en in &enter {
             for pay in &payload {
@@ -854,7 +854,7 @@ pub fn c29(args: &Args) -> i32 {
                     // still meaningful with kg_arg=_internal
                 }
                 for ident in 0..2u8 {
-                    for kg_arg in 0..3u8 {
+                    for kg_arg in 0..4u8 {
                         cases.push((text.clone(), kg_arg, ident, 0));
                         // with a stray ACL row on _internal; ACL-management commands aimed at _internal are
                         // excluded there (they are ACL administration of a KG the row makes the caller own)
@@ -882,6 +882,11 @@ pub fn c29(args: &Args) -> i32 {
             let res = match kg_arg {
                 0 => env.run(None, Some("A"), text, Some(id)),
                 1 => env.run(None, Some(INTERNAL_KG), text, Some(id)),
+                3 => {
+                    // a live session on the caller's own KG AND the internal KG named as the request's target
+                    sid = env.handler.create_session_with_auth("A", id).ok();
+                    env.run(sid.as_ref(), Some(INTERNAL_KG), text, Some(id))
+                }
                 _ => {
                     // session path: try to bind directly to _internal first, else to A
                     match env.handler.create_session_with_auth(INTERNAL_KG, id) {
@@ -895,7 +900,7 @@ pub fn c29(args: &Args) -> i32 {
                 }
             };
             let after = env.kg_state(INTERNAL_KG);
-            let where_ = ["kg=A", "kg=_internal", "session"][*kg_arg as usize];
+            let where_ = ["kg=A", "kg=_internal", "session", "session_on_A_and_kg=_internal"][*kg_arg as usize];
             let pos = if text.lines().count() > 1 { "multi_line" } else { "single_line" };
             if before != after {
                 out.push((format!("internal_kg_modified:{where_}:{pos}"), format!("program {text:?} by {} via {where_}: _internal changed from {before:?} to {after:?}", id.username)));
